@@ -1,6 +1,7 @@
 package an
 
 import (
+	"go/types"
 	"go/token"
 
 	"golang.org/x/tools/go/ssa"
@@ -250,6 +251,25 @@ func (p *Prog) DeepSourcesStop(v ssa.Value, depth int, throughCallers bool, stop
 							walk(RetVal(ret, 0), &frame{x, callee, fr}, depth-1)
 						}
 						continue
+					}
+					// a method of an interface of the module with a handful of implementations in the caller's
+					// package (a strategy object): what any of them returns
+					if x.Call.IsInvoke() && x.Call.Method.Type().(*types.Signature).Results().Len() == 1 {
+						impls := p.Callees(&x.Call)
+						okAll := len(impls) > 0 && len(impls) <= 4
+						for _, im := range impls {
+							if im.Blocks == nil || im.Pkg != x.Parent().Pkg || calleeOnStack(im, fr) {
+								okAll = false
+							}
+						}
+						if okAll {
+							for _, im := range impls {
+								for _, ret := range Returns(im) {
+									walk(RetVal(ret, 0), &frame{x, im, fr}, depth-1)
+								}
+							}
+							continue
+						}
 					}
 				}
 			}
